@@ -14,7 +14,7 @@ THEOREMS = ["Econf.C11_set", "Econf.C11_get", "Econf.C11_keys", "Econf.C11_group
 # string helpers translated from the C source on every run (gen/c2lean.py); theorems in lean/Econf/Props/Leaf.lean
 LEAF_FNS = ["stripbrackets"]
 RULE = ("random sequences of create/set/get/get-with-default/list operations (1..60, thorough ..300) over a small universe of sections "
-        "and keys incl. bracketed, empty and NULL ones, starting from econf_newKeyFile, econf_newIniFile, "
+        "and keys incl. bracketed, empty and NULL ones and keys with blanks at either end, starting from econf_newKeyFile, econf_newIniFile, "
         "econf_newKeyFile_with_options, parsed files (with and without group-less keys, with key-less sections) and merged objects; every output is compared with a reference ordered map; distinct by op sequence")
 
 
